@@ -8,7 +8,7 @@ def h_exec_commandExecutor_Kill : Nat := 0x9cbc6d4c730e9f6a
 def h_exec_commandExecutor_Run : Nat := 0x36a7e9ecb008df69
 
 /-- hash of the normalised skeleton of newCommand (internal/dag/executor/command.go) -/
-def h_exec_newCommand : Nat := 0x24a618734f894039
+def h_exec_newCommand : Nat := 0xbc7fe9e4f609f755
 
 /-- hash of the normalised skeleton of SetStdout (internal/dag/executor/command.go) -/
 def h_exec_commandExecutor_SetStdout : Nat := 0xc5994b381f93dada
